@@ -163,18 +163,26 @@ class GroundedEffect:
 
         return numerical_fluents
 
-    def apply(self, state: State) -> None:
+    def apply(self, state: State, previous_state: Optional[State] = None) -> None:
         """Applies the effect to the given state.
 
         :param state: the state in which the effect is applied.
+        :param previous_state: the state prior to the action's execution - the numeric effects are evaluated
+            using its values. If not given the values are taken from the state that is being changed.
         """
         self.logger.debug("The antecedents for the effect hold so applying the effect.")
         self._apply_discrete_effects(next_state_predicates=state.state_predicates)
+        previous_state_functions = (
+            previous_state.state_fluents
+            if previous_state is not None
+            else state.state_fluents
+        )
         new_values = []
         for grounded_expression in self.grounded_numeric_effects:
             new_values.append(
                 self._update_single_numeric_expression(
-                    grounded_expression, previous_state_functions=state.state_fluents
+                    grounded_expression,
+                    previous_state_functions=previous_state_functions,
                 )
             )
 
